@@ -528,7 +528,8 @@ class Inliner:
             for x in ast.walk(st0):
                 if isinstance(x, ast.Name) and isinstance(x.ctx, ast.Load):
                     uses[x.id] = uses.get(x.id, 0) + 1
-        single_expr = len([s0 for s0 in fn.body if not (isinstance(s0, ast.Expr) and isinstance(s0.value, ast.Constant))]) == 1
+        nodoc = [s0 for s0 in fn.body if not (isinstance(s0, ast.Expr) and isinstance(s0.value, ast.Constant))]
+        single_expr = len(nodoc) == 1 or _as_expression(clone(nodoc)) is not None
         for p, a in values.items():
             simple = isinstance(a, (ast.Name, ast.Constant)) or (isinstance(a, ast.Attribute) and _is_chain(a))
             # an argument used at most once by a one-statement helper can take the parameter's place without being evaluated twice
@@ -905,7 +906,7 @@ class Inliner:
                     if h is None or qualname_of(h[0]) in stack:
                         continue
                     fn, recv, decos = h
-                    if _contains(fn.body, (ast.Yield, ast.YieldFrom)) or _returns_in_loops(fn.body):
+                    if _contains(fn.body, (ast.Yield, ast.YieldFrom)):
                         continue
                     b = self.bind(fn, recv, decos, n)
                     if b is None:
@@ -913,6 +914,8 @@ class Inliner:
                     mapping, prologue, suffix = b
                     body = self.instantiate(fn, mapping)
                     expr_form = _as_expression(body) if not prologue else None
+                    if expr_form is None and _returns_in_loops(fn.body):
+                        continue
                     if expr_form is not None:
                         rep = expr_form
                         if _replace_node(st, n, rep):
@@ -1116,10 +1119,23 @@ def _forward_return(stmts, result, ret_stmt):
 
 
 def _as_expression(body):
-    """A helper body made only of `if c: return a` ... `return b` is the conditional expression a if c else (...) else b."""
+    """A helper body made only of `if c: return a` ... `return b` is the conditional expression a if c else (...) else b.
+    A search loop `for v in X: if C: return True` / `return False` is any(C for v in X) (and the dual is all(...))."""
     if not body:
         return None
     st = body[0]
+    if len(body) == 2 and isinstance(st, ast.For) and not st.orelse and len(st.body) == 1 and isinstance(st.body[0], ast.If) and not st.body[0].orelse \
+            and len(st.body[0].body) == 1 and isinstance(st.body[0].body[0], ast.Return) and isinstance(st.body[0].body[0].value, ast.Constant) \
+            and isinstance(body[1], ast.Return) and isinstance(body[1].value, ast.Constant) \
+            and isinstance(st.body[0].body[0].value.value, bool) and isinstance(body[1].value.value, bool) and st.body[0].body[0].value.value != body[1].value.value:
+        found = st.body[0].body[0].value.value
+        test = st.body[0].test if found else ast.UnaryOp(op=ast.Not(), operand=st.body[0].test)
+        gen = ast.GeneratorExp(elt=test, generators=[ast.comprehension(target=st.target, iter=st.iter, ifs=[], is_async=0)])
+        e = ast.Call(func=ast.Name(id="any" if found else "all", ctx=ast.Load()), args=[gen], keywords=[])
+        ast.copy_location(e, st)
+        ast.fix_missing_locations(e)
+        _set_module(e, getattr(st, "_module", None))
+        return e
     if isinstance(st, ast.Return):
         return st.value if st.value is not None and len(body) == 1 else None
     if isinstance(st, ast.If) and len(st.body) == 1 and isinstance(st.body[0], ast.Return) and st.body[0].value is not None:
